@@ -15,7 +15,7 @@ use serde_json::{json, Value};
 pub static DEF: PropDef = PropDef {
     id: "C07",
     level: "exploration",
-    rule: "a victim instance holds a room at version v0 (pulled from its admin); the admin makes an honest change (v1); the definition exported by the admin at v1 is altered by an adversary that is a plain user of the room: a user entry of the room re-attached as admin or as user admin with a reference the adversary signs, a right of one group re-attached to another group, an admin entry replayed from another room of the same admin, a self-signed admin entry, a tampered entry, omissions, duplicates and re-orderings, or honest versions delivered out of order and repeatedly; the candidate goes through verify_room_node + add_room_node exactly like a pulled definition. Oracle: if refused, storage and live room unchanged; if accepted, the decision matrix of the live room (all keys incl. the adversary, all entities, all entry dates +-1 and now) equals the matrix of the model at v0 or v1. non-trivial = candidate containing a legitimate addition and an adversarial element, or an out-of-order honest update; distinct = (transformation, room shape) Histories where the adversary has been admin, or user admin of the first group, for a while: a self-signed admin entry created while it was admin and in force now; a user entry authored after it lost the user-admin role. The decision grid always contains the present and a far-future date.",
+    rule: "a victim instance holds a room at version v0 (pulled from its admin); the admin makes an honest change (v1); the definition exported by the admin at v1 is altered by an adversary that is a plain user of the room: a user entry of the room re-attached as admin or as user admin with a reference the adversary signs, a right of one group re-attached to another group, an admin entry replayed from another room of the same admin, a self-signed admin entry, a tampered entry, omissions, duplicates and re-orderings, or honest versions delivered out of order and repeatedly; the candidate goes through verify_room_node + add_room_node exactly like a pulled definition. Oracle: if refused, storage and live room unchanged; if accepted, the decision matrix of the live room (all keys incl. the adversary, all entities, all entry dates +-1 and now) equals the matrix of the model at v0 or v1. non-trivial = candidate containing a legitimate addition and an adversarial element, or an out-of-order honest update; distinct = (transformation, room shape) Histories where the adversary has been admin, or user admin of the first group, for a while: a self-signed admin entry created while it was admin and in force now; a user entry authored after it lost the user-admin role. The decision grid always contains the present and a far-future date. Histories where the adversary is an admin when the victim learns the room and is disabled by the unseen change: a complete new group authored by it afterwards.",
     assumptions: &[
         "the adversary holds its own signing key only; every row it did not author is reused byte for byte",
     ],
